@@ -27,7 +27,7 @@ func init() {
 			"known fixed-length meta events are generated with their spec length (tempo 3 bytes non-zero, etc.)",
 			"header length is 6 (statement)",
 		},
-		Require: []string{"many_unknown_chunk_files", "huge_unknown_chunk_files", "reads_with_eof_delivered_with_data", "files", "feat:running_status", "feat:padded_vlq", "feat:f0_without_f7", "feat:f7_packet", "feat:unknown_meta", "feat:long_payload", "feat:alien_before", "feat:alien_between", "feat:alien_after", "feat:smpte", "decoder_crosschecks", "events_compared", "messages_classified", "pipe_reads", "reads_with_log_option", "appends_to_read_messages", "files_with_more_than_65536_events", "rereads_after_in_place_edit_of_the_first_result"},
+		Require: []string{"many_unknown_chunk_files", "huge_unknown_chunk_files", "reads_with_eof_delivered_with_data", "files", "feat:running_status", "feat:padded_vlq", "feat:f0_without_f7", "feat:f7_packet", "feat:unknown_meta", "feat:long_payload", "feat:alien_before", "feat:alien_between", "feat:alien_after", "feat:smpte", "decoder_crosschecks", "events_compared", "messages_classified", "pipe_reads", "reads_with_log_option", "appends_to_read_messages", "files_with_more_than_65536_events", "files_with_tracks_of_hundreds_of_events", "rereads_after_in_place_edit_of_the_first_result"},
 		UsesCur: true,
 		Run:     runC02,
 	})
@@ -340,7 +340,13 @@ func runC02(c *mon.Ctx) {
 		}
 	})
 	c.Each("random", c.N(20_000, 2_000_000), func(i int64, r *mon.Rand) {
-		f := gen.SMFFile(r, gen.FileOpts{MaxTracks: 8, MaxEvents: 60, AllowBig: i%16 == 0, Aliens: true, PaddedVLQ: true, Running: true})
+		me := 60
+		if i%8 == 3 {
+			// tracks of a few hundred events next to short ones
+			me = r.Pick(129, 200, 300, 700)
+			c.Count("files_with_tracks_of_hundreds_of_events", 1)
+		}
+		f := gen.SMFFile(r, gen.FileOpts{MaxTracks: 8, MaxEvents: me, AllowBig: i%16 == 0, Aliens: true, PaddedVLQ: true, Running: true})
 		c02Check(c, f, fmt.Sprintf("random %d", i))
 		if i < 1 {
 			c.Sample("random-file", mon.Hex(head(f.Bytes(nil), 120)))
